@@ -2,8 +2,8 @@
    MT code (Mt/Trace.v) and reports the outcome it ends in; unit cutting (Mt/Units.v). *)
 open Proto
 
-let rec nat_of_int n = if n <= 0 then Model.O else Model.S (nat_of_int (n - 1))
-let rec int_of_nat = function Model.O -> 0 | Model.S k -> 1 + int_of_nat k
+let nat_of_int n = z (if n <= 0 then 0 else n)   (* nat is extracted to zarith integers *)
+let int_of_nat n = zi n
 
 let split_on c s = if s = "" then [] else String.split_on_char c s
 
@@ -85,7 +85,7 @@ let install register =
         | Ok script ->
             let tr = parse_trace trace in
             let f = Model.f_of_table (table_of_trace tr) in
-            let n, cands = Model.accept f c [ Model.init c script [] ] tr Model.O in
+            let n, cands = Model.accept f c [ Model.init c script [] ] tr (z 0) in
             (match cands with
             | [] -> Printf.sprintf "REJECT event %d of %d" (int_of_nat n) (List.length tr)
             | s :: _ ->
@@ -105,7 +105,7 @@ let install register =
               if sched = "-" then []
               else
                 List.map
-                  (fun x -> let i = int_of_string x in if i = 0 then Model.Co Model.O else Model.Wk (nat_of_int (i - 1)))
+                  (fun x -> let i = int_of_string x in if i = 0 then Model.Co (z 0) else Model.Wk (nat_of_int (i - 1)))
                   (String.split_on_char ',' sched)
             in
             (* the failing units of the scenario are given after the schedule: "bad=<i>,<j>:<code>" *)
